@@ -4,6 +4,7 @@ package main
 import (
 	"context"
 	"fmt"
+	"math"
 	"time"
 
 	"gopkg.in/typ.v4/chans"
@@ -233,6 +234,14 @@ func (c qconf) String() string {
 }
 
 // qbound: all interleavings, except for two long concurrent receivers (preemption bound 3)
+// short renders a long value list as its length, head and tail.
+func short(l []int) string {
+	if len(l) <= 80 {
+		return fmt.Sprint(l)
+	}
+	return fmt.Sprintf("[%d values: %v ... %v]", len(l), l[:6], l[len(l)-4:])
+}
+
 func qbound(c qconf) int {
 	if c.rival == 2 {
 		return 3
@@ -242,7 +251,7 @@ func qbound(c qconf) int {
 
 func queuedScenario(c qconf) schk.Scenario {
 	return schk.Scenario{
-		Name: c.String(), Bound: qbound(c), RaceBound: -2, ExpectDeadlock: true,
+		Name: c.String(), Bound: qbound(c), RaceBound: -2, ExpectDeadlock: true, MaxSteps: 20000 + 8*c.capN,
 		Body: func(s *vrt.Sched) any {
 			r := &rec{ch: make(chan int, c.capN)}
 			for i := 0; i < c.fill; i++ {
@@ -319,7 +328,7 @@ func queuedScenario(c qconf) schk.Scenario {
 					stop = true
 				}
 			}
-			out := fmt.Sprintf("got=%v left=%v peerSent=%v rivalGot=%v", got, left, r.peerSent, r.peerGot)
+			out := fmt.Sprintf("got=%v left=%v peerSent=%v rivalGot=%v", short(got), short(left), r.peerSent, short(r.peerGot))
 			if c.rival > 0 {
 				// two receivers share the queue: every queued value ends up with exactly one of them or
 				// stays in the channel, each receiver sees its values in FIFO order, nothing is invented
@@ -337,12 +346,12 @@ func queuedScenario(c qconf) schk.Scenario {
 						return schk.Failf("queued-lost", "%s: queued value %d is accounted for %d times: %s", c, v, seen[v], out), ""
 					}
 				}
-				if len(seen) != len(r.prefill) || len(got) > c.limit {
+				if len(seen) != len(r.prefill) || len(got) > max(c.limit, 0) {
 					return schk.Failf("queued-invented", "%s: %s", c, out), ""
 				}
 				return nil, out
 			}
-			if len(got) > c.limit {
+			if len(got) > max(c.limit, 0) {
 				return schk.Failf("queued-over-limit", "%s returned %d values: %s", c, len(got), out), ""
 			}
 			// FIFO: got ++ left must be the prefilled values followed by completed peer sends, nothing invented
@@ -370,8 +379,8 @@ func queuedScenario(c qconf) schk.Scenario {
 			// everything that was already queued must be returned up to the limit (no peers involved)
 			if c.blockedPeers == 0 {
 				wantN := c.fill
-				if wantN > c.limit {
-					wantN = c.limit
+				if wantN > max(c.limit, 0) {
+					wantN = max(c.limit, 0)
 				}
 				if len(got) != wantN {
 					return schk.Failf("queued-count", "%s returned %d values, want %d: %s", c, len(got), wantN, out), ""
@@ -693,6 +702,20 @@ func main() {
 				if capN <= 17 {
 					scs = append(scs, queuedScenario(qconf{full: full, capN: capN, fill: capN, limit: limit, rival: 2}))
 				}
+			}
+		}
+	}
+	// very long queues (a batch size / preallocation cap would sit well above the sizes above)
+	hugeCaps := []int{65535, 65537, 70000}
+	if r.Thorough() {
+		hugeCaps = append(hugeCaps, 1<<17+1, 1<<20+1)
+	}
+	for _, full := range []bool{false, true} {
+		for _, capN := range hugeCaps {
+			scs = append(scs, queuedScenario(qconf{full: full, capN: capN, fill: capN, limit: capN + 3}))
+			scs = append(scs, queuedScenario(qconf{full: full, capN: capN, fill: capN, closed: true, limit: capN}))
+			if !full {
+				scs = append(scs, queuedScenario(qconf{full: full, capN: capN, fill: capN, closed: true, limit: math.MaxInt}))
 			}
 		}
 	}
